@@ -2,6 +2,7 @@ package main
 
 import (
 	"go/ast"
+	"go/token"
 	"strings"
 )
 
@@ -211,9 +212,25 @@ func timeoutFacts(e *env, p func(format string, args ...any)) {
 	}
 	// the declared Content-Length is never consulted: no selector .ContentLength and no
 	// "Content-Length" string literal anywhere in the library's (non-test, non-hook) sources
+	// (a case label of a clause that does nothing but `continue` names a key to pass over: it
+	// reads no value)
 	clUses := 0
 	for _, f := range e.files {
+		skipLabels := map[ast.Node]bool{}
 		ast.Inspect(f, func(n ast.Node) bool {
+			if cc, ok := n.(*ast.CaseClause); ok && len(cc.Body) == 1 {
+				if br, ok := cc.Body[0].(*ast.BranchStmt); ok && br.Tok == token.CONTINUE && br.Label == nil {
+					for _, l := range cc.List {
+						skipLabels[l] = true
+					}
+				}
+			}
+			return true
+		})
+		ast.Inspect(f, func(n ast.Node) bool {
+			if skipLabels[n] {
+				return false
+			}
 			switch x := n.(type) {
 			case *ast.SelectorExpr:
 				if x.Sel.Name == "ContentLength" {
